@@ -12,7 +12,7 @@ import itertools
 import os
 
 from vf.props import railsworld as rw
-from vf.props import c16_conc, c16_shapes
+from vf.props import c16_conc, c16_exc, c16_hist, c16_param, c16_shapes
 from vf.props.c01 import outcomes
 
 PROP = "C16"
@@ -158,6 +158,12 @@ def explore(task):
         return explore_same_rail_twice(task)
     if task[0] == "text-shapes":
         return c16_shapes.explore(task)
+    if task[0] == "history":
+        return c16_hist.explore(task)
+    if task[0] == "param-rails":
+        return c16_param.explore(task)
+    if task[0] == "blocking-mode":
+        return c16_exc.explore(task)
     if task[0] == "conc":
         r = c16_conc.explore(task[1:])
         out = {"conc_" + k: v for k, v in r.items() if k not in ("viol", "complete")}
@@ -374,7 +380,11 @@ def run(rep, tier):
     seed = int(os.environ.get("VERIF_SEED", 0) or 0)
     conc = c16_conc.tasks(tier, seed)
     ts += [("conc",) + t for t in conc]
+    # the larger tasks of the two sequential families go to the front of the queue, the small ones to the end
+    hist_tasks, param_tasks = c16_hist.tasks(), c16_param.tasks()
+    ts = hist_tasks[:4] + [t for t in param_tasks if len(t[2]) > 1 and "input" in t[2] and "output" in t[2]] + ts
     ts += c16_shapes.tasks()
+    ts += hist_tasks[4:] + [t for t in param_tasks if t not in ts] + c16_exc.tasks()
     agg, extra_samples = {}, {}
     for r in par.pmap(explore, ts):
         for k, v in r.items():
@@ -392,6 +402,13 @@ def run(rep, tier):
     rep.set("rule", "16 subsets x {list, dict} form x every effective verdict vector of 2 input / 2 output rails x supplied bot message y/n x dialog path x {plain, hostile} text; "
                     f"{len(c16_shapes.SHAPES)} text shapes (leading `$`, names of context variables, empty / blank, literals of the language) x position (user text, prompt=, "
                     "supplied bot message, text a rail rewrites into) x {accept, reject}; "
+                    "conversation-history family (history_*): the call ends a conversation of 1-2 earlier exchanges that reaches it through {plain messages, the events cache, "
+                    "the state object} x {input, input+output, output} x user text / supplied bot message / rewritten text in {fresh, equal to an earlier user or bot turn} "
+                    "x {accept, reject, rewrite}; parametrised-rail family (param_rail_*): `content safety check input/output $model=<m>` configured 3 / 2 times with "
+                    "different parameters, two configured orders x 6 selections without dialog x {list, dict} x every effective accept/reject vector x every list-form row "
+                    "as the first call of a fresh instance; "
+                    "blocking-mode family (blocking_mode_*): enable_rails_exceptions on / off x rail sets {stub+stub, shipped self check rail + stub, stub + shipped} "
+                    "x 6 selections without dialog x every effective verdict vector; "
                     "non-trivial = rails-only cases (dialog not selected) + cases in which a rail blocked.  "
                     "conc_*: two overlapping rails-only generate_async calls on one instance, every pair of request kinds "
                     f"({', '.join(c16_conc.KINDS)}) with at most {c16_conc.quick_bound(tier)} rail actions in total, every arrival / rail-completion order "
@@ -404,6 +421,9 @@ def run(rep, tier):
     rep.assumptions += [
         "the supplied bot message uses role `assistant` (the role LLMRails reads; the guide's example says `bot`)",
         "an empty selection and selections with `output` but without a bot message and without dialog are outside the statement",
+        "conversation-history family: the earlier turns are accepted unchanged by every rail; one earlier conversation per (source, length, selection), every case continues it",
+        "blocking-mode family: the shipped flows `self check input` / `self check output` run unchanged, their actions are stand-ins following the verdict script",
+        "parametrised-rail family: the library flows `content safety check input/output` run unchanged, their two actions are stand-ins that judge by context['model']",
         "text-shape family: the instance's events cache is emptied before every call (the shapes are fixed texts; the cache is C15's subject)",
         "concurrent part: the suspension points of a rails-only call are its rail actions (each awaits an explorer-owned future); "
         "external completions land at quiescent points of the loop; a request is attributed to its call through a context variable set by the calling task",
@@ -419,6 +439,12 @@ def replay(rp):
         return c16_conc.replay(rp)
     if rp.get("part") == "text-shape":
         return c16_shapes.replay(rp)
+    if rp.get("part") == "history":
+        return c16_hist.replay(rp)
+    if rp.get("part") == "param":
+        return c16_param.replay(rp)
+    if rp.get("part") == "blocking-mode":
+        return c16_exc.replay(rp)
     world = rw.World(
         "".join((v1_rail_variable_refusal(r) if rp.get("variable_refusal") else rw.v1_rail(r, "input")) for r in IN_ORDER) + "".join(rw.v1_rail(r, "output") for r in OUT_ORDER)
         + (rw.V1_DIALOG if rp["dialog_world"] else "") + RET,
